@@ -34,7 +34,7 @@ def replay(g, o, assigns, path):
 
 MANIFEST = {
     "category": "proof",
-    "text": "Unbounded proof of the structural clauses: advertised dimension k after init (1), after factorize_from(_, m) (m), after each compress_H (k-1 / k-2) and after restart (ncv); factorize_from is only entered at the step at which (V,H,f) is valid (typestate ghost) in every init/compute history; ncv-k shifts per restart. The numerical identities are NOT decided. H shape: Q'TQ tridiagonal and exactly symmetric (TridiagQR, unbounded), Q'HQ exactly upper Hessenberg and R exactly upper triangular (UpperHessenbergQR on the cursor model of its pointer walks, unbounded; real address arithmetic bounded at concrete n); residual norms that normalise basis vectors are B-norms (static obligation). Breakdown handling: the block handed to expand_basis consists of exactly the i columns built so far, and the sub-diagonal entry written for a column that was restarted from a random direction is the literal zero; basis vectors are never scaled by a Euclidean norm/normalisation (static obligation).",
+    "text": "Unbounded proof of the structural clauses: advertised dimension k after init (1), after factorize_from(_, m) (m), after each compress_H (k-1 / k-2) and after restart (ncv); factorize_from is only entered at the step at which (V,H,f) is valid (typestate ghost) in every init/compute history; ncv-k shifts per restart. The numerical identities are NOT decided. H shape: Q'TQ tridiagonal and exactly symmetric (TridiagQR, unbounded), Q'HQ exactly upper Hessenberg and R exactly upper triangular (UpperHessenbergQR on the cursor model of its pointer walks, unbounded; real address arithmetic bounded at concrete n); residual norms that normalise basis vectors are B-norms (static obligation). Breakdown handling: the block handed to expand_basis consists of exactly the i columns built so far, and the sub-diagonal entry written for a column that was restarted from a random direction is the literal zero; basis vectors are never scaled by a Euclidean norm/normalisation (static obligation). Third session: V_def typestate of Lanczos::factorize_from - the column of V mapped as the local vector v is read (inner products, operator application, residual update) only after the current iteration has stored f/||f|| in it, so no basis vector of an earlier generation enters the recurrence.",
     "note": 'floating-point values of Eigen expressions are havocked (lossy extraction, every abstracted statement listed in the evidence); callee contracts are generated stubs sharing clause texts with the enforcing harness; std::sort/Eigen/operator contracts assumed; Skolem instantiation meta-rule',
     "technique": "CBMC dfcc frame contracts + loop contracts + harness-asserted postconditions on mechanically extracted C (cadical)",
 }
